@@ -1,9 +1,9 @@
 (* Pins: full statements of the C20 theorems; a weakened theorem no longer type-checks here.
    Generated once by tools/mkpins.py from Props/C20.v and then committed: edit both or neither. *)
 From SV Require Import Lib.Base Gen.Consts Gen.WireFields Model.WireBase Model.WireSixFrag Model.WireNhc.
-From SV Require Import Model.Assembler Model.LowpanFrag Model.WireIphc.
+From SV Require Import Model.Assembler Model.LowpanFrag Model.WireIphc Model.Lowpan.
 From SV Require Import Proofs.WireBaseProofs Proofs.AssemblerProofs Proofs.LowpanWireProofs Proofs.LowpanFragProofs.
-From SV Require Import Proofs.LowpanIphcBitsProofs Proofs.LowpanIphcProofs.
+From SV Require Import Proofs.LowpanIphcBitsProofs Proofs.LowpanIphcProofs Proofs.LowpanProofs.
 From SV Require Import Props.C20.
 
 Check (C20_frag_hdr_roundtrip : forall r b,
@@ -131,3 +131,10 @@ Check (C20_iphc_parse_no_panic : forall b lls lld ctx,
   iphc_ll_wf lls = true -> iphc_ll_wf lld = true ->
   iphc_parse b lls lld ctx <> Panic /\ iphc_check_len b <> Panic /\
   (iphc_check_len b = Ok tt -> iphc_payload b <> Panic /\ iphc_header_len b <> Panic)).
+
+Check (C20_decompress_no_panic : forall ctx lls lld b total_len buflen,
+  bytes_ok b = true -> blen b < 65528 -> iphc_ll_wf lls = true -> iphc_ll_wf lld = true ->
+  lp_ctx_wf ctx ->
+  lp_IPV6_HDR <= buflen -> (forall t, total_len = Some t -> lp_IPV6_HDR <= t) ->
+  lp_sixlowpan_to_ipv6 ctx lls lld b total_len buflen <> Panic /\
+  forall d, lp_sixlowpan_to_ipv6 ctx lls lld b total_len buflen = Ok d -> blen d <= buflen).
